@@ -17,7 +17,12 @@ Local Open Scope list_scope.
 Record obs := {
   ob_ret : option N;            (* node returned by Get / Ensure *)
   ob_flag : bool;               (* Ensure: generator was called; Move: returned non-nil *)
-  ob_all : list (option N) }.   (* GetFsNode of every universe path after the op *)
+  ob_all : list (option N);     (* GetFsNode of every universe path after the op *)
+  ob_dump : list (path * option N);   (* every FsNode below the root after the op (walk of the
+                                         real structure, placeholders included, any depth) *)
+  ob_attr : option (N * string * option N) }.
+                                (* Move of a node-carrying source, real *Dir/*File nodes: the
+                                   node's id, its name field and its parent-directory id afterwards *)
 
 Record case := {
   root : option N;
@@ -58,10 +63,26 @@ Definition vd (x : v) : option N :=
   end%N.
 Definition vn (x : v) : N := match vd x with Some n => n | None => 0%N end.
 
-(* one observation: returned node, flag, the 12 lookups of univ12 in order *)
-Definition R (ret : v) (flag : bool) (c1 c2 c3 c4 c5 c6 c7 c8 c9 c10 c11 c12 : v) : obs :=
+(* component names *)
+Definition sa : string := "a".
+Definition sb : string := "b".
+Definition sc : string := "c".
+Definition sx : string := "x".
+Definition sy : string := "y".
+(* attribute observation of a Move: A0 = none (source missing or a placeholder),
+   At id name parent (parent o = the node has no parent directory) *)
+Definition A0 : option (N * string * option N) := None.
+Definition At (id : v) (name : string) (parent : v) : option (N * string * option N) :=
+  Some (vn id, name, vd parent).
+(* dump entries *)
+Definition D (l : list (path * v)) : list (path * option N) := map (fun e => (fst e, vd (snd e))) l.
+
+(* one observation: returned node, flag, the 12 lookups of univ12 in order, dump, attributes *)
+Definition R (ret : v) (flag : bool) (c1 c2 c3 c4 c5 c6 c7 c8 c9 c10 c11 c12 : v)
+    (dump : list (path * v)) (attr : option (N * string * option N)) : obs :=
   {| ob_ret := vd ret; ob_flag := flag;
-     ob_all := map vd [c1; c2; c3; c4; c5; c6; c7; c8; c9; c10; c11; c12] |}.
+     ob_all := map vd [c1; c2; c3; c4; c5; c6; c7; c8; c9; c10; c11; c12];
+     ob_dump := D dump; ob_attr := attr |}.
 
 (* operations with ids written as lookup codes *)
 Definition St (p : path) (x : v) : op := Set_ p (vn x).
@@ -95,36 +116,133 @@ Fixpoint all2 {A} (f : A -> A -> bool) (l1 l2 : list A) : bool :=
   end.
 
 Definition is_move (op_ : op) : bool := match op_ with Move _ _ => true | _ => false end.
+Definition is_nilp (p : path) : bool := match p with [] => true | _ => false end.
 
-(* model vs implementation: everything the caller can see *)
-Definition corr_step (u : list path) (t : tree) (op_ : op) (ob : obs) : tree * bool :=
-  let '(t', r) := step t op_ in
-  (t', on_eqb (r_node r) (ob_ret ob) && Bool.eqb (r_flag r) (ob_flag ob)
-       && all2 on_eqb (map (get t') u) (ob_all ob)).
-
-(* reference vs implementation: the lookups (the *FsNode returned by Move is not
-   a lookup and is left to the correspondence) *)
-Definition prop_step (u : list path) (m : rmap) (op_ : op) (ob : obs) : rmap * bool :=
-  let '(m', r) := r_step m op_ in
-  (m', on_eqb (r_node r) (ob_ret ob) && (is_move op_ || Bool.eqb (r_flag r) (ob_flag ob))
-       && all2 on_eqb (map (r_get m') u) (ob_all ob)).
-
-Fixpoint corr_run (u : list path) (t : tree) (os : list op) (obs_ : list obs) : tree * bool :=
-  match os, obs_ with
-  | [], [] => (t, true)
-  | op_ :: os', ob :: obs' =>
-      let '(t', ok) := corr_step u t op_ ob in
-      let '(t'', ok') := corr_run u t' os' obs' in (t'', ok && ok')
-  | _, _ => (t, false)
+(* ---- the dump against the model tree: same set of FsNodes, same nodes ---- *)
+Fixpoint size (t : tree) : nat :=
+  match t with
+  | Node _ k => S ((fix go (k : list (string * tree)) : nat :=
+                      match k with [] => O | (_, c) :: k' => size c + go k' end) k)
+  end.
+Definition dump_ok (t : tree) (d : list (path * option N)) : bool :=
+  forallb (fun pv => match node_at t (fst pv) with
+                     | Some c => on_eqb (value c) (snd pv) && negb (is_nilp (fst pv))
+                     | None => false end) d
+  && Nat.eqb (S (length d)) (size t).
+(* the walk lists every FsNode once *)
+Fixpoint nodup_paths (d : list (path * option N)) : bool :=
+  match d with
+  | [] => true
+  | pv :: d' => negb (existsb (fun e => path_eqb (fst pv) (fst e)) d') && nodup_paths d'
   end.
 
-Fixpoint prop_run (u : list path) (m : rmap) (os : list op) (obs_ : list obs) : rmap * bool :=
+(* ---- against the placeholder-aware reference: directories exist exactly where it says ---- *)
+Definition pdump_ok (s : pstate) (d : list (path * option N)) : bool :=
+  forallb (fun pv => negb (is_nilp (fst pv)) && p_has s (fst pv) && on_eqb (p_get s (fst pv)) (snd pv)) d
+  && forallb (fun e => is_nilp e || existsb (fun pv => path_eqb e (fst pv)) d) (p_dirs s).
+(* ---- against the flat reference: bound paths and only those carry nodes ---- *)
+Definition rdump_ok (m : rmap) (d : list (path * option N)) : bool :=
+  forallb (fun pv => on_eqb (r_get m (fst pv)) (snd pv)) d
+  && forallb (fun e => is_nilp (fst e) || match r_get m (fst e) with
+                        | Some _ => existsb (fun pv => path_eqb (fst e) (fst pv)) d
+                        | None => true end) m.
+
+(* ---- node attributes rewritten by Move / connectToParent (real *Dir / *File nodes) ----
+   fscache.go:122-131: the node's name becomes the last component of newPath;
+   fscache.go:148-157: its parent directory becomes the node of the new parent
+   FsNode ONLY when that node is non-nil, otherwise the old (stale) value stays. *)
+Definition astate := list (N * option N).     (* id -> parent-directory id *)
+Fixpoint a_parent (a : astate) (id : N) : option N :=
+  match a with
+  | [] => None
+  | (k, p) :: a' => if N.eqb k id then p else a_parent a' id
+  end.
+Definition attr_step (t : tree) (a : astate) (op_ : op) : astate * option (N * string * option N) :=
+  match op_ with
+  | Move old new =>
+      match node_at t old with
+      | Some src =>
+          match value src with
+          | Some id =>
+              let par := match get (remove_at t old) (removelast new) with
+                         | Some pid => Some pid
+                         | None => a_parent a id
+                         end in
+              ((id, par) :: a, Some (id, last new ""%string, par))
+          | None => (a, None)
+          end
+      | None => (a, None)
+      end
+  | _ => (a, None)
+  end.
+Definition attr_eqb (x y : option (N * string * option N)) : bool :=
+  match x, y with
+  | None, None => true
+  | Some (i, n, p), Some (i', n', p') => N.eqb i i' && String.eqb n n' && on_eqb p p'
+  | _, _ => false
+  end.
+
+(* model vs implementation: everything the caller can see, the whole structure, the node fields *)
+Definition corr_step (u : list path) (ta : tree * astate) (op_ : op) (ob : obs) : (tree * astate) * bool :=
+  let '(t, a) := ta in
+  let '(t', r) := step t op_ in
+  let '(a', at_) := attr_step t a op_ in
+  ((t', a'), on_eqb (r_node r) (ob_ret ob) && Bool.eqb (r_flag r) (ob_flag ob)
+       && all2 on_eqb (map (get t') u) (ob_all ob)
+       && dump_ok t' (ob_dump ob) && nodup_paths (ob_dump ob)
+       && attr_eqb at_ (ob_attr ob)).
+
+Fixpoint corr_run (u : list path) (ta : tree * astate) (os : list op) (obs_ : list obs) : (tree * astate) * bool :=
   match os, obs_ with
-  | [], [] => (m, true)
+  | [], [] => (ta, true)
   | op_ :: os', ob :: obs' =>
-      let '(m', ok) := prop_step u m op_ ob in
-      let '(m'', ok') := prop_run u m' os' obs' in (m'', ok && ok')
-  | _, _ => (m, false)
+      let '(ta', ok) := corr_step u ta op_ ob in
+      let '(ta'', ok') := corr_run u ta' os' obs' in (ta'', ok && ok')
+  | _, _ => (ta, false)
+  end.
+
+(* ---- the property's oracle, on the implementation's observables only ----
+   Two references run side by side: the flat map [m] (the property's reference
+   tree) and the placeholder-aware one [s].  One step:
+     okp   the implementation equals the placeholder-aware reference EXACTLY
+           (returned node, flags incl. Move's non-nil result, 12 lookups, dump);
+     okr   it equals the flat reference (Move's result: non-nil whenever the
+           flat reference has the source; a placeholder source may also succeed);
+     ghost the step is a ghost move (known finding 0), decided on s and m.
+   After a ghost step the flat reference restarts from the content the
+   placeholder-aware reference holds, so every later step is checked again
+   against the flat reference (the finding does not excuse the rest of the case). *)
+Record pst := { ps : pstate; pm : rmap }.
+Record stepres := { sr_okp : bool; sr_okr : bool; sr_ghost : bool }.
+
+Definition prop_step (u : list path) (x : pst) (op_ : op) (ob : obs) : pst * stepres :=
+  let s := ps x in let m := pm x in
+  let g := pghost_move s m op_ in
+  let '(s', rp) := p_step s op_ in
+  let '(m', rr) := r_step m op_ in
+  let okp := on_eqb (r_node rp) (ob_ret ob) && Bool.eqb (r_flag rp) (ob_flag ob)
+             && all2 on_eqb (map (p_get s') u) (ob_all ob) && pdump_ok s' (ob_dump ob) in
+  let okr := on_eqb (r_node rr) (ob_ret ob)
+             && (if is_move op_ then implb (r_flag rr) (ob_flag ob) else Bool.eqb (r_flag rr) (ob_flag ob))
+             && all2 on_eqb (map (r_get m') u) (ob_all ob) && rdump_ok m' (ob_dump ob) in
+  ({| ps := s'; pm := if g then p_vals s' else m' |},
+   {| sr_okp := okp; sr_okr := okr; sr_ghost := g |}).
+
+(* accumulated over a run: all okp, all okr, okr on the non-ghost steps, number of ghost steps *)
+Record acc := { ac_p : bool; ac_r : bool; ac_rn : bool; ac_g : N }.
+Definition acc0 : acc := {| ac_p := true; ac_r := true; ac_rn := true; ac_g := 0%N |}.
+Definition acc_add (a : acc) (r : stepres) : acc :=
+  {| ac_p := ac_p a && sr_okp r; ac_r := ac_r a && sr_okr r;
+     ac_rn := ac_rn a && (sr_ghost r || sr_okr r);
+     ac_g := if sr_ghost r then N.succ (ac_g a) else ac_g a |}.
+Definition acc_bad : acc := {| ac_p := false; ac_r := false; ac_rn := false; ac_g := 0%N |}.
+
+Fixpoint prop_run (u : list path) (x : pst) (os : list op) (obs_ : list obs) (a : acc) : pst * acc :=
+  match os, obs_ with
+  | [], [] => (x, a)
+  | op_ :: os', ob :: obs' =>
+      let '(x', r) := prop_step u x op_ ob in prop_run u x' os' obs' (acc_add a r)
+  | _, _ => (x, acc_bad)
   end.
 
 Definition some_node (ob : obs) : bool :=
@@ -132,20 +250,21 @@ Definition some_node (ob : obs) : bool :=
 
 Definition check (c : case) : outcome :=
   let u := univ c in
-  let '(t, ok_c) := corr_run u (init (root c)) (ops c) (impl c) in
-  let '(m, ok_p) := prop_run u (r_init (root c)) (ops c) (impl c) in
-  let fin_c := forallb (fun pv => on_eqb (get t (fst pv)) (snd pv)) (final c) in
-  let fin_p := forallb (fun pv => on_eqb (r_get m (fst pv)) (snd pv)) (final c) in
-  let br_c := forallb (fun b => snd (corr_step u t (fst b) (snd b))) (branches c) in
-  (* branches on which the reference disagrees with the implementation *)
-  let bad := filter (fun b => negb (snd (prop_step u m (fst b) (snd b)))) (branches c) in
+  let '(ta, ok_c) := corr_run u (init (root c), []) (ops c) (impl c) in
+  let '(x, a) := prop_run u {| ps := p_init (root c); pm := r_init (root c) |} (ops c) (impl c) acc0 in
+  let fin_c := forallb (fun pv => on_eqb (get (fst ta) (fst pv)) (snd pv)) (final c) in
+  let fin_p := forallb (fun pv => on_eqb (p_get (ps x) (fst pv)) (snd pv)) (final c) in
+  let fin_r := forallb (fun pv => on_eqb (r_get (pm x) (fst pv)) (snd pv)) (final c) in
+  let br_c := forallb (fun b => snd (corr_step u ta (fst b) (snd b))) (branches c) in
+  (* every branch is one more step from the end of the prefix *)
+  let a' := fold_left (fun a b => acc_add a (snd (prop_step u x (fst b) (snd b)))) (branches c) a in
   let valid := forallb valid_op (ops c) && forallb (fun b => valid_op (fst b)) (branches c) in
   {| o_corr := valid && ok_c && br_c && fin_c;
-     o_prop := ok_p && fin_p && match bad with [] => true | _ => false end;
-     (* finding 0: a ghost move in the prefix, or every failing branch is itself a ghost move *)
-     o_trig := if trigger (root c) (ops c)
-                  || (ok_p && fin_p && match bad with [] => false | _ => true end
-                           && forallb (fun b => ghost_move t m (fst b)) bad)
+     o_prop := ac_p a' && ac_r a' && fin_p && fin_r;
+     (* finding 0: some step is a ghost move, the implementation does exactly what
+        the placeholder-aware reference says everywhere, and the ONLY steps that
+        deviate from the flat reference are the ghost moves themselves *)
+     o_trig := if negb (N.eqb (ac_g a') 0) && ac_p a' && ac_rn a' && fin_p && fin_r
                then Some 0%N else None;
      o_nontrivial := existsb some_node (impl c) || existsb (fun b => some_node (snd b)) (branches c) |}.
 
